@@ -108,7 +108,7 @@ func diffLines(a, b string) string {
 }
 
 func TestPropConvergence(t *testing.T) {
-	sub := stats.NewSub("convergence-vs-fresh-gateway", "rapid: history of 2-10 events over two clusters (create/update with a new valid version: servers, disabled flags, policies, schemas incl. type changes and removals, feature-gate annotation added/changed/dropped, logging, serving cert / client CA / server names; one upsert in three takes annotations / schemas / servers / policies / serving material / logging back from an EARLIER version of the cluster exactly as they were; delete; duplicate delivery; a version whose sync fails (unusable client CA / key pair stored past admission) with other fields changed too, later superseded by a valid one), optionally followed by an admission-race episode (a version claiming a name owned by the other cluster fails and is retried after newer versions were applied); oracle: fingerprint(live) == fingerprint(fresh controller with only the latest objects); non-trivial = a field is removed or restored between versions of a cluster, or a retry of a superseded version is delivered after a newer one; distinct by FNV-64 of the op trace")
+	sub := stats.NewSub("convergence-vs-fresh-gateway", "rapid: history of 2-10 events over two clusters (create/update with a new valid version: servers, disabled flags, policies, schemas incl. type changes and removals, feature-gate annotation added/changed/dropped, logging, serving cert / client CA / server names; one upsert in three takes annotations / schemas / servers / policies / serving material / logging back from an EARLIER version of the cluster exactly as they were; delete; duplicate delivery; a version whose sync fails (unusable client CA / key pair stored past admission) with other fields changed too, later superseded by a valid one), optionally followed by an admission-race episode (a version claiming a name owned by the other cluster fails and is retried after newer versions were applied) and an intruder episode (an object NAMED like a server name one of the clusters owns is stored, refused by the controller and deleted again, with optional retries before and after the deletion); oracle: fingerprint(live) == fingerprint(fresh controller with only the latest objects); non-trivial = a field is removed or restored between versions of a cluster, or a retry of a superseded version is delivered after a newer one; distinct by FNV-64 of the op trace")
 	known := findings.Open(staleRetryFinding)
 	stats.Check(t, stats.N(1500, 8000), func(t *rapid.T) {
 		live := ctlbox.New()
@@ -344,6 +344,40 @@ func TestPropConvergence(t *testing.T) {
 					}
 				}
 				sub.Class("admission-race-episode")
+			}
+		}
+		// optional intruder episode: an object NAMED like a server name that a stored cluster owns got stored (its
+		// admission check raced), is refused by the controller and is deleted again; the latest objects are unchanged
+		if rapid.IntRange(0, 2).Draw(t, "intruder") == 0 {
+			for _, n := range names {
+				obj := stored[n]
+				if obj == nil || len(obj.Spec.SecureServing.ServerNames) == 0 {
+					continue
+				}
+				x := strings.ToLower(obj.Spec.SecureServing.ServerNames[0])
+				if stored[x] != nil {
+					continue
+				}
+				intr := genObj(t, "intruder", x, nil)
+				res, err := live.Apply(intr)
+				if err == nil && res.RequeueAfter == 0 {
+					t.Fatalf("an object named like a server name of cluster %s was applied without conflict\ntrace:\n%s", n, trace)
+				}
+				trace += "INTRUDER " + x + " (server name of " + n + ") stored and refused\n"
+				if rapid.Bool().Draw(t, "intruderRetry") {
+					_, _ = live.Deliver(intr)
+				}
+				if _, err := live.Delete(intr); err != nil {
+					t.Fatalf("delete of the refused object failed: %v", err)
+				}
+				trace += "INTRUDER deleted\n"
+				if rapid.Bool().Draw(t, "intruderLateRetry") {
+					_, _ = live.Deliver(intr) // a queued retry of the refused object arrives after its deletion
+					trace += "INTRUDER retry after the deletion\n"
+				}
+				nt = true
+				sub.Class("refused-intruder-created-and-deleted")
+				break
 			}
 		}
 		// quiescence: compare with a fresh gateway given only the latest objects
